@@ -2,6 +2,7 @@ CONSTANTS
   N = 4
   MaxB = 2
   WithInit = TRUE
+  CanonInit = TRUE
   EmitCases = TRUE
 INIT Init
 NEXT Next
